@@ -9,7 +9,12 @@
    order of a frozenset: the theorems hold for every choice of them ([keq] an equivalence).
    [enc v] says that brine.dump(v) succeeds where _work calls it (the decoder accepts deeper nesting
    than the encoder can emit before the interpreter's recursion limit): again any function.
-   [F] carries the six facts tools/pygen reads off rpyc/utils/registry.py.
+   [F] carries the seven facts tools/pygen reads off rpyc/utils/registry.py.
+   SCOPE.  (E1) [keq_equiv keq] includes reflexivity: ports that are not == to themselves (NaN, also nested in
+   a tuple) are EXCLUDED from 1, 2, 2b and 3c; what happens with them is 1f, and 1e says when the code keeps
+   them out.  (E2) "delivered" in 1a means: encoded and handed to _send.  Whether the encoding fits the
+   MAX_DGRAM_SIZE bytes a stock client reads, or a UDP datagram at all, is NOT implied: 1d states the size
+   bound as a hypothesis and refutes it for an honest history (known finding).
    What is only partly covered carries [_partial] in its name; every [_refuted] theorem is the witness
    of a defect, for trees on which the corresponding fact is false (or, for the two marked "known",
    for every tree). *)
@@ -44,12 +49,12 @@ Theorem c18_query_delivered : forall upper lower fso keq enc F pruning,
      deliver enc F (exec keq F pruning now h (RQuery N) (state_after keq F pruning rh))
      = exec keq F pruning now h (RQuery N) (state_after keq F pruning rh))
   /\ (register_validates F = true -> forall h v ns p,
-        classify upper lower fso enc F h v = RRegister ns p -> answerable enc (h, p)).
+        classify upper lower fso keq enc F h v = RRegister ns p -> answerable enc (h, p)).
 Proof.
   intros upper lower fso keq enc F pruning ET. split.
   - intros rh now h N RO. now apply query_delivered.
-  - intros V h v ns p E. apply (accepted_answerable enc F h p V).
-    now apply (classify_register_accepted upper lower fso enc F h v ns p).
+  - intros V h v ns p E. apply (accepted_answerable keq enc F h p V).
+    now apply (classify_register_accepted upper lower fso keq enc F h v ns p).
 Qed.
 Print Assumptions c18_query_delivered.
 
@@ -64,19 +69,59 @@ Theorem c18_query_delivered_refuted : forall F, reply_guarded F = true -> regist
 Proof. intros F G V. split; [exact (shallow_tuple_ok 3)|now apply reply_lost_witness]. Qed.
 Print Assumptions c18_query_delivered_refuted.
 
-(* 1c. case-insensitivity: service names reach the table only through upper(), on both sides *)
-Theorem c18_case_insensitive : forall upper lower fso enc F h c,
-  (find_cmd (lower c) = Some CQuery -> forall n1 n2, upper n1 = upper n2 ->
-     classify upper lower fso enc F h (PTuple [PStr RPYC; PStr c; PTuple [PStr n1]])
-     = classify upper lower fso enc F h (PTuple [PStr RPYC; PStr c; PTuple [PStr n2]])
-     /\ classify upper lower fso enc F h (PTuple [PStr RPYC; PStr c; PTuple [PStr n1]]) = RQuery (upper n1))
-  /\ (find_cmd (lower c) = Some CRegister -> forall ns p, accepted enc F h p = true ->
-     classify upper lower fso enc F h (PTuple [PStr RPYC; PStr c; PTuple [PTuple (map PStr ns); p]]) = RRegister (map upper ns) p)
-  /\ (find_cmd (lower c) = Some CUnregister -> forall p,
-     classify upper lower fso enc F h (PTuple [PStr RPYC; PStr c; PTuple [p]]) = RUnregister p).
+(* 1d. (partial: reply size.)  A stock client reads MAX_DGRAM_SIZE bytes once: it holds the whole answer when the
+       encoding is at most that long -- a hypothesis no theorem discharges -- and ninety genuine servers of one
+       name (or a few bulky ports) already break it: the exact answer is longer, the client sees a proper prefix
+       (review r12 no. 3, known finding; beyond 65507 bytes UDP cannot carry the answer at all) *)
+Theorem c18_reply_size_partial : forall bs, Z.of_nat (List.length bs) <= Gen_registry.max_dgram_size ->
+  client_read Gen_registry.max_dgram_size bs = bs.
+Proof. intros bs H. now apply whole_reply_read. Qed.
+Print Assumptions c18_reply_size_partial.
+Theorem c18_reply_size_refuted : forall F,
+  mono many_history /\ clock_le many_history 1000
+  /\ match exec pyval_eqb F 240 1000 h1 (RQuery (T "FOO")) (state_after pyval_eqb F 240 many_history) with
+     | Next _ _ (Some rep) =>
+         match dump {| sp := true; maxdigits := 4300 |} rep with
+         | Ok bs => 1500 < Z.of_nat (List.length bs) /\ client_read 1500 bs <> bs
+         | _ => False
+         end
+     | _ => False
+     end.
+Proof. exact big_reply_witness. Qed.
+Print Assumptions c18_reply_size_refuted.
+
+(* 1e. on a tree whose cmd_register compares the address with a copy of itself, every port that reaches the table
+       is == to itself, i.e. exclusion (E1) is enforced at the door *)
+Theorem c18_registered_ports_self_equal : forall upper lower fso keq enc F, register_self_equal F = true ->
+  forall h v ns p, classify upper lower fso keq enc F h v = RRegister ns p -> keq p p = true.
 Proof.
-  intros upper lower fso enc F h c. split; [|split].
-  - intros E n1 n2 H. rewrite !(classify_query_upper upper lower fso enc F h c _ E). now rewrite H.
+  intros upper lower fso keq enc F V h v ns p E. apply (accepted_self_equal keq enc F h p V).
+  now apply (classify_register_accepted upper lower fso keq enc F h v ns p).
+Qed.
+Print Assumptions c18_registered_ports_self_equal.
+
+(* 1f. outside (E1) the statements fail on a tree without that test (review r12 no. 9): with an equality under which a
+       port is not equal to itself, two identical registers make two entries, an unregister removes neither, and
+       the answer lists the address twice *)
+Theorem c18_self_unequal_port_refuted : forall F,
+  snd (cmd_query keq_never F 240 1003 (T "FOO") (state_after keq_never F 240 nan_history))
+  = [(h1, PFloat nanbits); (h1, PFloat nanbits)].
+Proof. exact self_unequal_witness. Qed.
+Print Assumptions c18_self_unequal_port_refuted.
+
+(* 1c. case-insensitivity: service names reach the table only through upper(), on both sides *)
+Theorem c18_case_insensitive : forall upper lower fso keq enc F h c,
+  (find_cmd (lower c) = Some CQuery -> forall n1 n2, upper n1 = upper n2 ->
+     classify upper lower fso keq enc F h (PTuple [PStr RPYC; PStr c; PTuple [PStr n1]])
+     = classify upper lower fso keq enc F h (PTuple [PStr RPYC; PStr c; PTuple [PStr n2]])
+     /\ classify upper lower fso keq enc F h (PTuple [PStr RPYC; PStr c; PTuple [PStr n1]]) = RQuery (upper n1))
+  /\ (find_cmd (lower c) = Some CRegister -> forall ns p, accepted keq enc F h p = true ->
+     classify upper lower fso keq enc F h (PTuple [PStr RPYC; PStr c; PTuple [PTuple (map PStr ns); p]]) = RRegister (map upper ns) p)
+  /\ (find_cmd (lower c) = Some CUnregister -> forall p,
+     classify upper lower fso keq enc F h (PTuple [PStr RPYC; PStr c; PTuple [p]]) = RUnregister p).
+Proof.
+  intros upper lower fso keq enc F h c. split; [|split].
+  - intros E n1 n2 H. rewrite !(classify_query_upper upper lower fso keq enc F h c _ E). now rewrite H.
   - intros E ns p A. now apply classify_register_upper.
   - intros E p. now apply classify_unregister.
 Qed.
@@ -175,7 +220,7 @@ Print Assumptions c18_loop_survives_refuted.
        a register with a deeply nested port is acknowledged, the next query for that name ends the loop *)
 Theorem c18_loop_survives_refuted_reply : forall F, reply_guarded F = false ->
   (forall upper lower fso keq enc pruning now h s v s' m rep,
-     exec keq F pruning now h (classify upper lower fso enc F h v) s = Next s' m (Some rep) -> enc rep = false ->
+     exec keq F pruning now h (classify upper lower fso keq enc F h v) s = Next s' m (Some rep) -> enc rep = false ->
      work_val upper lower fso keq enc F pruning now h s v = Dead OtherError)
   /\ (register_validates F = false -> exists s1 m1,
         work_val ascii_upper ascii_lower fso_id pyval_eqb (shallow 5) F 240 1000 h1 [] register_deep = Next s1 m1 (Some OKv)
@@ -214,7 +259,7 @@ Theorem c18_malformed_dropped : forall upper lower fso keq enc F pruning now h s
   /\ (forall c a, py_iter fso a = None -> drop (PTuple [PStr RPYC; PStr c; a]))               (* args not a sequence *)
   /\ (forall c k a al, find_cmd (lower c) = Some k -> py_iter fso a = Some al ->
         List.length al <> (match k with CRegister => 2 | _ => 1 end)%nat -> drop (PTuple [PStr RPYC; PStr c; a]))  (* wrong argument count *)
-  /\ (forall c ns p, find_cmd (lower c) = Some CRegister -> accepted enc F h p = false ->
+  /\ (forall c ns p, find_cmd (lower c) = Some CRegister -> accepted keq enc F h p = false ->
         drop (PTuple [PStr RPYC; PStr c; PTuple [PTuple (map PStr ns); p]])).                   (* address that could not be sent back *)
 Proof.
   intros upper lower fso keq enc F pruning now h s drop. unfold drop.
@@ -281,7 +326,7 @@ Proof. intros H v. cbn [reached_at_ms]. lia. Qed.
 Print Assumptions c18_tcp_stock_client_refuted.
 
 (* 5. tie to the current source tree: the skeletons of _work, _remove_service, cmd_register and TCP _recv are
-      among the shapes the model covers, and the six facts are the ones those skeletons imply *)
+      among the shapes the model covers, and the seven facts are the ones those skeletons imply *)
 Theorem c18_tie :
   Gen_registry.commands = ["query"; "register"; "unregister"]%string
   /\ skel_known Gen_registry.work_skeleton = true
@@ -291,6 +336,8 @@ Theorem c18_tie :
   /\ notify_only_present Fgen = rskel_only_present Gen_registry.remove_skeleton
   /\ gskel_known Gen_registry.register_skeleton = true
   /\ register_validates Fgen = gskel_validates Gen_registry.register_skeleton
+  /\ register_self_equal Fgen = gskel_self_equal Gen_registry.register_skeleton
+  /\ Gen_registry.max_dgram_size = 1500
   /\ tskel_known Gen_registry.tcp_recv_skeleton = true
   /\ tcp_timeout Fgen = tskel_timeout Gen_registry.tcp_recv_skeleton
   /\ tcp_closes_unanswered Fgen = tskel_sweeps Gen_registry.tcp_recv_skeleton
@@ -299,8 +346,8 @@ Theorem c18_tie :
   /\ keq_equiv pyval_eqb.
 Proof.
   pose proof tie_commands. pose proof tie_work_skeleton as (? & ? & ?). pose proof tie_remove_skeleton as [? ?].
-  pose proof tie_register_skeleton as [? ?].
-  pose proof tie_tcp_recv_skeleton as (? & ? & ?). pose proof tie_constants as (? & _ & _ & ? & ?).
+  pose proof tie_register_skeleton as (? & ? & ?).
+  pose proof tie_tcp_recv_skeleton as (? & ? & ?). pose proof tie_constants as (? & ? & _ & ? & ?).
   repeat split; auto; apply pyval_eqb_equiv.
 Qed.
 Print Assumptions c18_tie.
@@ -309,7 +356,8 @@ Print Assumptions c18_tie.
 (* a history from three hosts with aliases, a refresh, an unregister, a malformed request and a query
    that prunes; pruning interval 5 *)
 Definition Fok : facts := {| lookup_guarded := true; notify_only_present := true; tcp_timeout := true;
-                            reply_guarded := true; register_validates := true; tcp_closes_unanswered := true |}.
+                            reply_guarded := true; register_validates := true; tcp_closes_unanswered := true;
+                            register_self_equal := true |}.
 Definition ha : text := T "a".  Definition hb : text := T "b".  Definition hc : text := T "c".
 Definition sample_history : list event :=    (* newest first *)
   [(1021, hb, RRegister [T "FOO"] (PInt 1));
@@ -342,12 +390,12 @@ Proof. vm_compute. split; reflexivity. Qed.
 Definition P0 : bparams := {| sp := true; maxdigits := 4300 |}.
 Example c18_sample_datagrams :
   (match dump P0 (PTuple [PStr RPYC; PStr (T "QUERY"); PTuple [PStr (T "Foo")]]) with
-   | Ok bs => option_map (classify ascii_upper ascii_lower fso_id enc_all Fok ha) (decode P0 bs) | _ => None end
+   | Ok bs => option_map (classify ascii_upper ascii_lower fso_id pyval_eqb enc_all Fok ha) (decode P0 bs) | _ => None end
    = Some (RQuery (T "FOO")))
   /\ (match dump P0 (PTuple [PStr RPYC; PStr (T "REGISTER"); PTuple [PTuple [PStr (T "foo"); PStr (T "Bar")]; PInt 18812]]) with
-      | Ok bs => option_map (classify ascii_upper ascii_lower fso_id enc_all Fok ha) (decode P0 bs) | _ => None end
+      | Ok bs => option_map (classify ascii_upper ascii_lower fso_id pyval_eqb enc_all Fok ha) (decode P0 bs) | _ => None end
       = Some (RRegister [T "FOO"; T "BAR"] (PInt 18812)))
-  /\ option_map (classify ascii_upper ascii_lower fso_id enc_all Fok ha) (decode P0 witness_numeric_command) = Some RNone
+  /\ option_map (classify ascii_upper ascii_lower fso_id pyval_eqb enc_all Fok ha) (decode P0 witness_numeric_command) = Some RNone
   /\ decode P0 [xff; x00] = Some PNone.
 Proof. vm_compute. repeat split. Qed.
 
@@ -376,7 +424,8 @@ Example c18_sample_tcp_leak :
   let bad := PTuple [PStr RPYC; PStr (T "nosuch"); PTuple []] in
   let q := PTuple [PStr RPYC; PStr (T "QUERY"); PTuple [PStr (T "foo")]] in
   let Fleak := {| lookup_guarded := true; notify_only_present := true; tcp_timeout := true;
-                  reply_guarded := true; register_validates := true; tcp_closes_unanswered := false |} in
+                  reply_guarded := true; register_validates := true; tcp_closes_unanswered := false;
+                  register_self_equal := true |} in
   tcp_run ascii_upper ascii_lower fso_id pyval_eqb enc_all Fleak 240 2 0 [] [(1, ha, Sends bad); (2, ha, Sends bad); (3, hc, Sends q)]
     = [TReached None; TReached None; TStarved]
   /\ tcp_run ascii_upper ascii_lower fso_id pyval_eqb enc_all Fok 240 2 0 [] [(1, ha, Sends bad); (2, ha, Sends bad); (3, hc, Sends q)]
